@@ -125,6 +125,16 @@ theorem removeMiner_pending (cfg : Cfg) (st : State) (id a : Bytes) (t l : Nat) 
     (removeMiner cfg st id a t l).height = st.height ∧ (removeMiner cfg st id a t l).trie = st.trie := by
   unfold removeMiner; split <;> exact ⟨rfl, rfl, rfl, rfl⟩
 
+theorem refundCore_fields (cfg : Cfg) (st : State) (id src : Bytes) (m : Miner) (money : Nat) :
+    (refundCore cfg st id src m money).pending = st.pending ∧ (refundCore cfg st id src m money).escrow = st.escrow ∧
+    (refundCore cfg st id src m money).height = st.height ∧ (refundCore cfg st id src m money).bal = st.bal := by
+  unfold refundCore
+  split
+  · exact ⟨(removeMiner_pending ..).1, (removeMiner_pending ..).2.1, (removeMiner_pending ..).2.2.1, removeMiner_bal ..⟩
+  · exact ⟨(updateMiner_pending ..).1, (updateMiner_pending ..).2.1, (updateMiner_pending ..).2.2.1, updateMiner_bal ..⟩
+
+theorem f64_small (n : Nat) (h : n < 2 ^ 53) : f64 n = n := by simp [f64, h]
+
 /-- Total of the refunds recorded in `context["refund"]`. -/
 def pendingSum (p : List (Nat × List (Bytes × Nat))) : Nat := (p.map (fun e => (e.2.map Prod.snd).sum)).sum
 
